@@ -95,12 +95,28 @@ where
     T: Number,
     usize: Cast<T>,
 {
+    // an empty span, or a step pointing away from `b`, has no element
+    let ascending = step > T::zero();
+    if (ascending && a >= b) || (!ascending && a <= b) {
+        return Linspace {
+            start: a,
+            step,
+            len: 0,
+            index: 0,
+        };
+    }
     let len = b - a;
     let steps = (len / step).ceil();
+    let mut n: usize = steps.cast();
+    // integer division truncates, so one more element may still lie strictly before `b`
+    let next = a + step * n.cast();
+    if (ascending && next < b) || (!ascending && next > b) {
+        n += 1;
+    }
     Linspace {
         start: a,
         step,
-        len: steps.cast(),
+        len: n,
         index: 0,
     }
 }
